@@ -360,6 +360,28 @@ func ens_parseAMF_result(v *Protocol, p []byte, pkt Packet, err error) bool {
 	return is && r != nil && math.Float64bits(float64(r.TransactionID)) == math.Float64bits(float64(tid))
 }
 
+// whatever packet comes back is a freshly made one, ready to decode into
+//@ ensures (*Protocol).parseAMFObject C07.dispatch.ready
+func ens_parseAMF_ready(pkt Packet, err error) bool {
+	if err != nil {
+		return true
+	}
+	switch x := pkt.(type) {
+	case *ConnectAppPacket:
+		return x != nil && spec_wfObjectCall(&x.objectCallPacket) && prim_freshobj_object(x.CommandObject)
+	case *ConnectAppResPacket:
+		return x != nil && spec_wfObjectCall(&x.objectCallPacket) && prim_freshobj_object(x.CommandObject)
+	case *CreateStreamResPacket:
+		return x != nil
+	case *PublishPacket:
+		return x != nil
+	case *CallPacket:
+		return x != nil
+	}
+	return false
+}
+
+//@ fresh (*Protocol).parseAMFObject pkt
 //@ ensures (*Protocol).parseAMFObject C04.balanced
 func ens_parseAMF_balanced(v *Protocol) bool { return !prim_held(&v.input.ltransactions) }
 
@@ -646,6 +668,7 @@ func ens_rmh_timestampExtDelta(v *Protocol, chunk *chunkStream, old_chunk chunkS
 
 // the per-chunk-stream state stays consistent; a message started by this header is a new, empty one
 func prim_freshobj_message(m *Message) bool { return true }
+func prim_freshobj_object(o *amf0.Object) bool { return true }
 
 //@ ensures (*Protocol).readMessageHeader C02.mh.state
 func ens_rmh_state(chunk *chunkStream, old_chunk chunkStream, err error) bool {
@@ -892,6 +915,34 @@ func lemma_C03_userControlRoundtrip(p *UserControl, rest []byte) bool {
 //@ safe (*WindowAcknowledgementSize).UnmarshalBinary C07
 //@ safe (*SetPeerBandwidth).UnmarshalBinary C07
 //@ safe (*UserControl).UnmarshalBinary C07
+// the command packets built on a name, a transaction id and a command OBJECT (connect and its response)
+// (as the constructors leave it and as every call site passes it: a command object, no args object yet)
+func spec_wfObjectCall(v *objectCallPacket) bool { return v.Args == nil && amf0.Spec_WfObject(v.CommandObject) }
+
+//@ requires (*objectCallPacket).UnmarshalBinary
+func req_objectCallUnmarshal(v *objectCallPacket) bool { return spec_wfObjectCall(v) }
+
+//@ ensures (*objectCallPacket).UnmarshalBinary C07.objectcall.wf
+func ens_objectCallUnmarshal(v *objectCallPacket) bool { return amf0.Spec_WfObject(v.CommandObject) }
+
+//@ ensures (*objectCallPacket).UnmarshalBinary C07.objectcall.wf-args
+func ens_objectCallUnmarshalArgs(v *objectCallPacket) bool { return v.Args == nil || amf0.Spec_WfObject(v.Args) }
+
+//@ assigns (*objectCallPacket).UnmarshalBinary v.*, v.CommandObject.*, v.CommandObject.objectBase.properties[*]
+//@ safe (*objectCallPacket).UnmarshalBinary C07
+
+//@ requires (*ConnectAppPacket).UnmarshalBinary
+func req_connectUnmarshal(v *ConnectAppPacket) bool { return spec_wfObjectCall(&v.objectCallPacket) }
+
+//@ assigns (*ConnectAppPacket).UnmarshalBinary v.*, v.objectCallPacket.CommandObject.*, v.objectCallPacket.CommandObject.objectBase.properties[*]
+//@ safe (*ConnectAppPacket).UnmarshalBinary C07
+
+//@ requires (*ConnectAppResPacket).UnmarshalBinary
+func req_connectResUnmarshal(v *ConnectAppResPacket) bool { return spec_wfObjectCall(&v.objectCallPacket) }
+
+//@ assigns (*ConnectAppResPacket).UnmarshalBinary v.*, v.objectCallPacket.CommandObject.*, v.objectCallPacket.CommandObject.objectBase.properties[*]
+//@ safe (*ConnectAppResPacket).UnmarshalBinary C07
+
 // the command packets built on a name, a transaction id and a command object of any AMF0 kind: a successful decode
 // leaves a packet no longer than its input, so the field that follows is sliced safely
 //@ ensures (*variantCallPacket).UnmarshalBinary C03.variant.size-le-len C07.variant.size-le-len
@@ -903,6 +954,12 @@ func ens_variantUnmarshal(v *variantCallPacket, data []byte, err error) bool { r
 //@ safe (*CreateStreamResPacket).UnmarshalBinary C07
 //@ safe (*PublishPacket).UnmarshalBinary C07
 //@ safe (*PlayPacket).UnmarshalBinary C07
+//@ requires (*Protocol).DecodeMessage
+func req_DecodeMessage(v *Protocol, m *Message) bool { return m != nil && req_parseAMF(v) }
+
+//@ assigns (*Protocol).DecodeMessage v.input.transactions[*], v.input.ltransactions
+//@ inline (*Protocol).DecodeMessage
+//@ safe (*Protocol).DecodeMessage C07
 //@ safe (*Protocol).readBasicHeader C07
 //@ safe (*Protocol).readMessageHeader C07
 //@ safe (*Protocol).readMessagePayload C07
